@@ -9,6 +9,7 @@ import (
 	"hash/crc32"
 	"io"
 	"reflect"
+	"runtime"
 	"strings"
 	"sync"
 	"time"
@@ -806,7 +807,7 @@ func init() {
 					m := rscp.Message{Tag: t, DataType: dt, Value: g.value(dt, 0, &b)}
 					switch dt { // values with the top bit set show a change of signedness
 					case rscp.Uint32:
-						m.Value = uint32(3000000000 + g.pick(1000))
+						m.Value = uint32(3000000000) + uint32(g.pick(1000))
 					case rscp.UChar8:
 						m.Value = uint8(200 + g.pick(50))
 					case rscp.UInt16:
@@ -832,6 +833,17 @@ func init() {
 			it := itemBytes(0x00800005, 3, []byte{9})
 			for k := 0; k < d; k++ {
 				it = itemBytes(0x00800006+uint32(k%3), 0x0e, it)
+			}
+			{
+				// decoding stays proportionate in memory as well: a frame of at most 64 KiB never needs hundreds of MiB
+				p := padBlocks(frameBytes(it, d%2 == 0, 1, 2))
+				var m0, m1 runtime.MemStats
+				runtime.ReadMemStats(&m0)
+				_ = readChunksSeq(identityMode{}, [][]byte{p}, false)
+				runtime.ReadMemStats(&m1)
+				if grown := (m1.TotalAlloc - m0.TotalAlloc) >> 20; grown > 128 {
+					cw.add("skip", "skip", fmt.Sprintf("N deep-nesting depth=%d allocation", d), fmt.Sprintf("FAIL C02 decoding a frame of %d bytes (containers nested %d deep) allocates %d MiB: %s", len(p), d, grown, trunc(hexOf(p), 120)))
+				}
 			}
 			anyCase(cw, padBlocks(frameBytes(it, d%2 == 0, 1, 2)), fmt.Sprintf("N deep-nesting depth=%d", d))
 			// … and two children per level near the top (a count pass over the children would double the work per level)
